@@ -27,7 +27,12 @@ type call struct {
 	// for field/tagkey: metric is the pre-created metric "pre"; for tagvalue: tag key "prekey"
 }
 
-func (c call) key() string { return c.Kind + ":" + c.NS + "/" + c.Name }
+func (c call) key() string {
+	if c.Kind == "getmetric" { // a read-only lookup answers for the same name as the get-or-create call
+		return "metric:" + c.NS + "/" + c.Name
+	}
+	return c.Kind + ":" + c.NS + "/" + c.Name
+}
 
 type scenario struct {
 	Name     string   `json:"name"`
@@ -58,6 +63,12 @@ var scenarios = []scenario{
 		Threads: [][]call{{{Kind: "metric", NS: "ns", Name: "old"}, {Kind: "metric", NS: "ns", Name: "m"}}, {{Kind: "prepare"}, {Kind: "flush"}}}},
 	{Name: "field-vs-flush", Pre: []call{{Kind: "field", Name: "f0"}},
 		Threads: [][]call{{{Kind: "field", Name: "f1"}}, {{Kind: "prepare"}, {Kind: "flush"}}, {{Kind: "tagkey", Name: "host"}}}},
+	// read-only lookups of a name that exists, while it moves mutable -> immutable -> file, and while a later flush
+	// rewrites its bucket
+	{Name: "get-vs-first-flush", Pre: []call{{Kind: "metric", NS: "ns", Name: "old"}},
+		Threads: [][]call{{{Kind: "getmetric", NS: "ns", Name: "old"}, {Kind: "getmetric", NS: "ns", Name: "old"}}, {{Kind: "prepare"}, {Kind: "flush"}}}},
+	{Name: "get-persisted-vs-second-flush", Pre: []call{{Kind: "metric", NS: "ns", Name: "old"}}, PreFlush: true,
+		Threads: [][]call{{{Kind: "getmetric", NS: "ns", Name: "old"}, {Kind: "getmetric", NS: "ns", Name: "old"}}, {{Kind: "metric", NS: "ns", Name: "m"}, {Kind: "prepare"}, {Kind: "flush"}}}},
 	// the bucket is already in a file; a second flush adds a name to it while another thread looks an old name up
 	// (a bucket loaded from the snapshot of before the flush must not be served after it)
 	{Name: "persisted-tagvalues-second-flush", Pre: []call{{Kind: "tagvalue", Name: "old"}}, PreFlush: true,
@@ -95,6 +106,10 @@ func (x *world) do(c call) {
 	case "metric":
 		var m metric.ID
 		m, err = x.db.GenMetricID([]byte(c.NS), []byte(c.Name))
+		id = uint32(m)
+	case "getmetric":
+		var m metric.ID
+		m, err = x.db.GetMetricID(c.NS, c.Name)
 		id = uint32(m)
 	case "field":
 		var f field.ID
